@@ -3,3 +3,5 @@ import PptxModel.Model.Str
 import PptxModel.Model.Proto
 import PptxModel.Model.PackUri
 import PptxModel.Props.C19
+import PptxModel.Model.Geometry
+import PptxModel.Props.C17
